@@ -633,11 +633,11 @@ def spec_second_restart_changes_nothing(result):
 
 
 N = 3
-WORLD = dict(present=TList(TBool(), n=N), size=TList(TInt(0, MAX_BLOB), n=N), status=TList(TInt(0, 2), n=N),
+WORLD = dict(present=TList(TBool(), n=N), size=TList(TInt(0, 2 ** 40), n=N), status=TList(TInt(0, 2), n=N),      # (files of ANY size)
              length=TList(TInt(0, MAX_BLOB), n=N), mine=TList(TInt(0, 1), n=N), save_blobs=TBool())
 
 
-def all_worlds(n, sizes=(5, 0, 7), lengths=(5, 9, 7)):
+def all_worlds(n, sizes=(5, 0, MAX_BLOB + 1), lengths=(5, 9, 7)):
     import itertools
     for pres in itertools.product((False, True), repeat=n):
         for stat in itertools.product((0, 1, 2), repeat=n):
@@ -1019,6 +1019,55 @@ class RestartReal:
 
 def _batch_hash(i):
     return '%096x' % (i * 7919 + 1)
+
+
+async def h_non_files(with_rows):
+    """a blob directory that also holds a dangling symbolic link and a sub-directory whose names look like blob hashes (and one
+    ordinary unrecorded blob file); optionally pending rows for the two non-files"""
+    d = _tempfile.mkdtemp(prefix='c18_nonfile_', dir=_SCRATCH)
+    storage = None
+    try:
+        good, link, sub = _batch_hash(1), _batch_hash(2), _batch_hash(3)
+        with open(_real_os.path.join(d, good), 'wb') as f:
+            f.write(b'x')
+        _real_os.symlink(_real_os.path.join(d, 'nowhere'), _real_os.path.join(d, link))
+        _real_os.mkdir(_real_os.path.join(d, sub))
+        conf = _real_config(True)
+        storage = SQLiteStorage(conf, ':memory:')
+        await storage.open()
+        if with_rows:
+            rows = [(h, 1, 0, 0, 'pending', 0, 0, 1, 0) for h in (link, sub)]
+            await storage.db.run(lambda c: c.executemany("insert into blob values (?, ?, ?, ?, ?, ?, ?, ?, ?)", rows).fetchall())
+        reported = []
+        for _ in range(3):
+            bm = BlobManager(asyncio.get_event_loop(), d, storage, conf)
+            await bm.setup()
+            reported.append(sorted(bm.completed_blob_hashes))
+        return reported, good
+    finally:
+        if storage is not None:
+            await storage.close()
+        _shutil.rmtree(d, ignore_errors=True)
+
+
+@proof("C18", "restart-real.non-files")
+class RestartRealNonFiles:
+    """BOUNDED stand-in on the real file system: directory entries that are not regular files (a dangling symbolic link, a
+    sub-directory) and have no finished row are never reported as completed, on the first start-up or any later one; the ordinary
+    unrecorded file next to them is"""
+    bounded_only = True
+    inputs = dict(with_rows=TBool())
+    note = "one file + one dangling symlink + one directory named like blob hashes, without / with pending rows, three start-ups"
+    run = h_non_files
+
+    def ensures_only_the_file_is_reported(result):
+        # (the first start-up records the unrecorded file as finished; it is reported from the next start-up on)
+        reported, good = result
+        return all(h == good for r in reported for h in r) and reported[1] == [good] and reported[2] == [good]
+
+    def samples():
+        yield dict(with_rows=False)
+        yield dict(with_rows=True)
 
 
 async def h_batches(n_files, n_finished_rows, n_stale_rows):
